@@ -127,7 +127,8 @@ def contracts():
     # ---- the specialization relation between declared types (C05 / C06):
     # a strict subclass relation between single classes; never reflexive;
     # anything that is not a PythonType, or a tuple of classes, is unrelated
-    pt = obj('yaql.language.yaqltypes.PythonType', nullable=True,
+    # (nullability plays no part in the specialization order)
+    pt = obj('yaql.language.yaqltypes.PythonType', nullable=TBool,
              checker=None, converter=None, python_type=TVal, validators=())
     SUB = 'ufn("py.issubclass", %s, %s, ret="Bool")'
     c(Y + 'PythonType.is_specialization_of',
